@@ -1,6 +1,6 @@
 use anyhow::{anyhow, bail, Context, Result};
 use crate::coord::{MavenCoord, Types};
-use crate::maven_pom::{Dependencies, DependencyManagement, MavenPom};
+use crate::maven_pom::{Dependencies, Dependency, DependencyManagement, MavenPom};
 use crate::{Downloader, DependencyScope};
 use crate::resolver::{Resolver, try_get_pom_for};
 
@@ -11,6 +11,12 @@ pub(crate) struct MavenPomDone {
 
 	pub(crate) dependency_management: Vec<DependencyDone>,
 	pub(crate) dependencies: Vec<DependencyDone>,
+
+	/// The dependencies as they were declared: the own ones first, then the ones inherited from the parents.
+	///
+	/// A child inherits these, and not the [MavenPomDone::dependencies] made from them, since the `dependency_management`
+	/// of the child also applies to the dependencies it inherits.
+	pub(crate) declared_dependencies: Vec<Dependency<DependencyScope>>,
 }
 
 #[derive(Debug, Clone)]
@@ -83,12 +89,12 @@ async fn merge_parent(downloader: &(impl Downloader + Sync), resolvers: &[Resolv
 		).await
 			.with_context(|| anyhow!("while creating `dependency_management` for {coord} (with a real parent)"))?;
 
-		let dependencies = make_dependencies(
-			&dependency_management, child.dependencies, Some(parent.dependencies)
-		)
+		let declared_dependencies = declared_dependencies(child.dependencies, Some(parent.declared_dependencies));
+
+		let dependencies = make_dependencies(&dependency_management, &declared_dependencies)
 			.with_context(|| anyhow!("while creating `dependencies` for {coord} (with a real parent)"))?;
 
-		Ok(MavenPomDone { coord, dependency_management, dependencies })
+		Ok(MavenPomDone { coord, dependency_management, dependencies, declared_dependencies })
 	} else {
 		// inherit from super pom from https://maven.apache.org/ref/3.9.8/maven-model-builder/super-pom.html
 
@@ -106,14 +112,12 @@ async fn merge_parent(downloader: &(impl Downloader + Sync), resolvers: &[Resolv
 		).await
 			.with_context(|| anyhow!("while creating `dependency_management` for {coord} (parent is super pom)"))?;
 
-		let dependencies = make_dependencies(
-			&dependency_management,
-			child.dependencies,
-			None
-		)
+		let declared_dependencies = declared_dependencies(child.dependencies, None);
+
+		let dependencies = make_dependencies(&dependency_management, &declared_dependencies)
 			.with_context(|| anyhow!("while creating `dependencies` for {coord} (parent is super pom)"))?;
 
-		Ok(MavenPomDone { coord, dependency_management, dependencies })
+		Ok(MavenPomDone { coord, dependency_management, dependencies, declared_dependencies })
 	}
 }
 
@@ -167,14 +171,22 @@ async fn make_dependency_management(downloader: &(impl Downloader + Sync), resol
 	Ok(vec)
 }
 
+/// The declared dependencies of a pom: its own ones, followed by the ones its parent declares or inherits.
+fn declared_dependencies(
+	child_dependencies: Option<Dependencies<DependencyScope>>,
+	parent_declared_dependencies: Option<Vec<Dependency<DependencyScope>>>,
+) -> Vec<Dependency<DependencyScope>> {
+	// TODO: also properly merge with parent? (appending the parent deps directly is wrong)
+	child_dependencies.map_or_else(Vec::new, |x| x.dependency).into_iter()
+		.chain(parent_declared_dependencies.unwrap_or_default())
+		.collect()
+}
+
 fn make_dependencies(
 	dependency_management: &[DependencyDone],
-	child_dependencies: Option<Dependencies<DependencyScope>>,
-	parent_dependencies: Option<Vec<DependencyDone>>,
+	declared_dependencies: &[Dependency<DependencyScope>],
 ) -> Result<Vec<DependencyDone>> {
-	let parent_dependencies = parent_dependencies.unwrap_or_default();
-
-	child_dependencies.map_or_else(Vec::new, |x| x.dependency).into_iter()
+	declared_dependencies.iter().cloned()
 		.map(|x| {
 			let group = x.group_id;
 			let artifact = x.artifact_id;
@@ -206,11 +218,5 @@ fn make_dependencies(
 				}
 			}
 		})
-		// TODO: also properly merge with parent? (appending the parent deps directly is wrong)
-		.chain(parent_dependencies.into_iter().map(Ok))
 		.collect::<Result<_>>()
 }
-
-
-
-
